@@ -119,7 +119,7 @@ def invoke(api, kind, a):
             return api.create_schedule(a["start"], a["end"])
         form = a.get("days_form", "set")
         seq = [getattr(Days, n) for n in days]
-        arg = {"set": set, "list": list, "tuple": tuple}[form](seq)
+        arg = {"set": set, "frozenset": frozenset, "list": list, "tuple": tuple}[form](seq)
         return api.create_schedule(a["start"], a["end"], arg)
     if kind == "stop":
         return api.stop()
